@@ -31,6 +31,7 @@ type vHybridOpts struct {
 	nProbes      int
 	efSearch     int
 	fusionByKind bool // WithFusionKind(kind) instead of WithFusion(NewFusion(kind, cfg))
+	fusionDefault bool // no fusion selected at all: the default (weighted sum, weights 1 and 1)
 }
 
 func vHybridCheck(h HybridSearchIndex, q []float32, texts []string, filters []Filter, k int, fkind FusionKind, cfg *FusionConfig) {
@@ -69,14 +70,16 @@ func vHybridCheckOpt(h HybridSearchIndex, q []float32, texts []string, filters [
 	if len(filters) > 0 {
 		hs = hs.WithMetadata(filters...)
 	}
-	if o.fusionByKind {
-		cfg = nil // the documented default configuration of the kind
+	if o.fusionByKind || o.fusionDefault {
+		// the documented default configuration (weights 1 and 1, K = 60), written out: the expectation must not be taken
+		// from DefaultFusionConfig() itself
+		cfg = &FusionConfig{VectorWeight: 1, TextWeight: 1, K: 60}
 	}
 	f, ferr := NewFusion(fkind, cfg)
 	vAssert(ferr == nil, "fusion-constructor")
 	if o.fusionByKind {
 		hs = hs.WithFusionKind(fkind)
-	} else {
+	} else if !o.fusionDefault {
 		hs = hs.WithFusion(f)
 	}
 	res, err := hs.Execute()
@@ -320,7 +323,7 @@ func H_C05_options() {
 	fam := vChoose("family", 6)
 	switch fam {
 	case 0: // filter groups alone: (c = x and n >= c) or (c = y)
-		o.groups = []*FilterGroup{{Filters: []Filter{Eq("c", "x"), Gte("n", vI64("c"))}, Logic: AND}, {Filters: []Filter{Eq("c", "y")}, Logic: AND}}
+		o.groups = []*FilterGroup{{Filters: []Filter{Eq("c", "x"), Gte("n", vI64("c"))}, Logic: AND}, {Filters: []Filter{Eq("c", []string{"y", "zz"}[vChoose("second_group_value", 2)])}, Logic: AND}}
 		if vChoose("parts", 2) == 1 {
 			q = nil // text + groups only
 		}
@@ -330,9 +333,20 @@ func H_C05_options() {
 		filters = []Filter{Eq("c", "x")}
 		texts = nil
 		vTag("groups+filters")
-	case 2: // fusion selected by kind: the kind's default configuration
-		fkind = vFusionKinds[vChoose("fusion", 4)]
-		o.fusionByKind = true
+	case 2: // fusion selected by kind, or not selected at all: the default configuration — also after another caller took a
+		// default configuration object and changed it for its own use
+		if vChoose("another_caller_customised_its_default_config", 2) == 1 {
+			mine := DefaultFusionConfig()
+			mine.VectorWeight, mine.TextWeight, mine.K = 0.25, 4, 1
+			_, _ = NewFusion(WeightedSumFusion, mine)
+		}
+		if vChoose("selected", 2) == 1 {
+			fkind = vFusionKinds[vChoose("fusion", 4)]
+			o.fusionByKind = true
+		} else {
+			fkind = WeightedSumFusion
+			o.fusionDefault = true
+		}
 		vTag("fusion-by-kind")
 	case 3: // vector threshold (any float32 that is not NaN; <= 0 means none)
 		o.setThreshold = true
